@@ -200,7 +200,7 @@ func (s *Streamer) CalleeReturns(call *ssa.Call, fr *Frame) (out [][]*Piece, ret
 	if f == nil || f.Blocks == nil || s.InModule == nil || !s.InModule(f) || s.depth >= 2 {
 		return nil, nil, false
 	}
-	cf := &Frame{Call: call, Callee: f, Parent: fr}
+	cf := ChildFrame(call, f, fr)
 	sub := NewStreamer(f, s.InModule)
 	sub.depth, sub.frame, sub.caller = s.depth+1, cf, s
 	vals, rets := sub.successReturns()
@@ -1059,7 +1059,7 @@ func (s *Streamer) producer(call *ssa.Call, idx int, v ssa.Value, at ssa.Instruc
 	cc := call.Common()
 	f := cc.StaticCallee()
 	if idx == 0 && f != nil && f.Blocks != nil && s.InModule != nil && s.InModule(f) && s.depth < 2 {
-		fr := &Frame{Call: call, Callee: f, Parent: s.frame}
+		fr := ChildFrame(call, f, s.frame)
 		sub := NewStreamer(f, s.InModule)
 		sub.depth = s.depth + 1
 		sub.frame = fr
@@ -1135,6 +1135,20 @@ func Resolve(v ssa.Value, fr *Frame) (ssa.Value, *Frame) {
 		case *ssa.UnOp, *ssa.Index:
 			if el, ef, ok := elemLoad(v, fr); ok {
 				v, fr = el, ef
+				continue
+			}
+		}
+		switch v.(type) {
+		case *ssa.UnOp, *ssa.Field:
+			// a field of a struct value written once: the value stored there (cells.go)
+			if e, ef, ok := fieldLoad(v, fr); ok {
+				v, fr = e, ef
+				continue
+			}
+		}
+		if fv, ok := v.(*ssa.FreeVar); ok {
+			if b, bf, ok := freeVarBinding(fv, fr); ok {
+				v, fr = b, bf
 				continue
 			}
 		}
